@@ -49,6 +49,7 @@ type Obs struct {
 	ViolKeys [][]string `json:"violkeys,omitempty"` // per violation: the schema names (package/name) it involves
 	ViolKind []string   `json:"violkind,omitempty"` // per violation: for a duplicate name, its cause (c18work.go dup*)
 	Names    []string   `json:"names,omitempty"`    // hist: message order
+	Same     []string   `json:"same,omitempty"`     // hist: per message "same" / "diff" (Ok answer vs the fresh cache's Ok answer) / "na"
 	Extra    string     `json:"extra,omitempty"`
 	Count    int        `json:"count,omitempty"` // export: number of schemas in the API
 }
